@@ -356,7 +356,12 @@ impl Property for C01 {
                 Container::Header13 => {
                     let mut f = lzma_header(c.props, dict, size);
                     f.extend_from_slice(&enc.payload);
-                    sut::lzma_decompress_simple(&f, &Opts::default())
+                    if dict % 2 == 0 {
+                        // the default-options wrapper
+                        sut::lzma_decompress_wrapper(&f, &ReaderKind::Slice, &Io::default())
+                    } else {
+                        sut::lzma_decompress_simple(&f, &Opts::default())
+                    }
                 }
                 Container::Header5 => {
                     let mut f = lzma_header5(c.props, dict);
